@@ -95,7 +95,7 @@ func main() {
 
 // scenario kinds by case index (fixed schedule so that every quick run contains every kind)
 func scenarioOf(i int) string {
-	switch i % 5 {
+	switch i % 6 {
 	case 0:
 		return "pair-gov"
 	case 1:
@@ -103,6 +103,8 @@ func scenarioOf(i int) string {
 	case 2:
 		return "pair-oob"
 	case 3:
+		return "bsc"
+	case 4:
 		return "single"
 	default:
 		return "pair-gov"
@@ -129,6 +131,8 @@ func gen(seed uint64, n, from, to, steps int, repo, outdir string, ethHeaders in
 			var st pairStats
 			chains, st = scenarioPair(r, steps, sc == "pair-gov")
 			stats["recv_ok"], stats["recv_rejected"], stats["ack_ok"] = st.recvOK, st.recvRejected, st.ackOK
+		case "bsc":
+			chains = scenarioBsc(r, 3*steps)
 		case "eth-mainnet":
 			chains = scenarioEth(r, repo, ethHeaders)
 		}
